@@ -23,6 +23,7 @@ CONSTANTS MaxSteps,        \* history length bound
           NDatasets,       \* dataset objects
           MaxPending,      \* concurrent executions in flight
           Focus,           \* "imm" | "exec" | "qmd" | "all": which actions are enabled
+          ChainOnly,       \* TRUE: fluent chains only (derivations apply to the newest stream), small pools
           CleanInPlace,    \* deviation: remove_empty_metadata edits the shared nodes
           QmdReplace       \* deviation: QMetaData replaces the dict of the copied node
 
@@ -48,7 +49,11 @@ MDOne   == Dct(<<StrC("m"), IntC(1)>>)
 MDs     == {MDEmpty, MDOne}
 Keys    == {"a", "b"}
 Vals    == {1, 2}
-Titles  == {"t1", ""}
+Titles  == IF ChainOnly THEN {""} ELSE {"t1", ""}
+QKeys   == IF ChainOnly THEN {"a"} ELSE Keys           \* keys QMetaData calls may set
+QVals   == IF ChainOnly THEN {1} ELSE Vals
+Ovrs    == IF ChainOnly THEN {FALSE} ELSE BOOLEAN
+Newest(s) == ~ChainOnly \/ s = Len(streams)
 Cols    == Lst(<<StrC("c")>>)
 NoQmd   == [k \in Keys |-> 0]          \* 0 = not set
 RetVals == {7, 8}
@@ -104,7 +109,7 @@ NewDataset(typed) ==
 
 (* Select / Where / SelectMany: a new node whose source IS the parent's node *)
 Derive(s, op, lam) ==
-    /\ Room /\ On({"imm", "exec", "qmd"})
+    /\ Room /\ On({"imm", "exec", "qmd"}) /\ Newest(s)
     /\ LET p == streams[s]
            n == Len(heap) + 1
        IN /\ heap' = Append(heap, Node(op, p.root, <<lam>>, NoQmd, 0))
@@ -114,7 +119,7 @@ Derive(s, op, lam) ==
     /\ UNCHANGED <<pending, execLog, delivered, ncalls>>
 
 MetaDataAct(s, md) ==
-    /\ Room /\ On({"imm", "exec"})
+    /\ Room /\ On({"imm", "exec"}) /\ Newest(s)
     /\ LET p == streams[s]
            n == Len(heap) + 1
        IN /\ heap' = Append(heap, Node("MetaData", p.root, <<md>>, NoQmd, 0))
@@ -126,7 +131,7 @@ MetaDataAct(s, md) ==
 (* QMetaData({k: v}): nothing new to record -> same node; otherwise a shallow copy of *)
 (* the top node carrying the dictionary                                               *)
 QMetaDataAct(s, k, v) ==
-    /\ Room /\ On({"qmd", "imm"})
+    /\ Room /\ On({"qmd", "imm"}) /\ Newest(s)
     /\ LET p == streams[s]
            found == LookupQ(heap, p.root, k)
            n == Len(heap) + 1
@@ -141,8 +146,28 @@ QMetaDataAct(s, k, v) ==
           /\ hist' = Append(hist, Act("QMetaData", s, "", Absent, k, v, "", 0))
     /\ UNCHANGED <<pending, execLog, delivered, ncalls>>
 
+(* QMetaData({a: v1, b: v2}): each key is recorded only if it is new or changes; one copy carries them all *)
+QMetaData2Act(s, v1, v2) ==
+    /\ Room /\ On({"qmd"}) /\ Newest(s)
+    /\ LET p == streams[s]
+           fa == LookupQ(heap, p.root, "a")
+           fb == LookupQ(heap, p.root, "b")
+           n == Len(heap) + 1
+           old == heap[p.root]
+           base == IF QmdReplace THEN NoQmd ELSE old.qmd
+           newq == [k \in Keys |-> IF k = "a" /\ fa # v1 THEN v1
+                                    ELSE IF k = "b" /\ fb # v2 THEN v2 ELSE base[k]]
+           gq == [k \in Keys |-> IF k = "a" THEN v1 ELSE v2]
+       IN /\ IF fa = v1 /\ fb = v2
+             THEN /\ heap' = heap
+                  /\ streams' = Append(streams, NewStream(p.root, p.type, p.gview, p.gds, gq))
+             ELSE /\ heap' = Append(heap, [old EXCEPT !.qmd = newq])
+                  /\ streams' = Append(streams, NewStream(n, p.type, p.gview, p.gds, gq))
+          /\ hist' = Append(hist, Act("QMetaData2", s, "", Absent, "ab", v1, "", v2))
+    /\ UNCHANGED <<pending, execLog, delivered, ncalls>>
+
 Terminal(s) ==
-    /\ Room /\ On({"imm", "exec"})
+    /\ Room /\ On({"imm", "exec"}) /\ Newest(s)
     /\ LET p == streams[s]
            n == Len(heap) + 1
        IN /\ heap' = Append(heap, Node("ResultAwkwardArray", p.root, <<Cols>>, NoQmd, 0))
@@ -191,9 +216,10 @@ Next ==
     \/ \E s \in 1..NStreams :
           \/ \E d \in DeriveOps : Derive(s, d[1], d[2])
           \/ \E md \in MDs : MetaDataAct(s, md)
-          \/ \E k \in Keys, v \in Vals : QMetaDataAct(s, k, v)
+          \/ \E k \in QKeys, v \in QVals : QMetaDataAct(s, k, v)
+          \/ \E v1 \in Vals, v2 \in Vals : QMetaData2Act(s, v1, v2)
           \/ Terminal(s)
-          \/ \E title \in Titles, ovr \in BOOLEAN : ValueStart(s, title, ovr)
+          \/ \E title \in Titles, ovr \in Ovrs : ValueStart(s, title, ovr)
     \/ \E i \in 1..Len(pending) : \E val \in RetVals : Complete(i, "ret", val)
     \/ \E i \in 1..Len(pending) : Complete(i, "raise", 0)
 
